@@ -235,6 +235,21 @@ def run(chk):
         meta.append({"kind": KINDS[kind], "d": d})
         chk.count(KINDS[kind])
         chk.case(meta[-1], (KINDS[kind], d, it % 7))
+    # ---- (a2) operators.preparation: the superoperator of "discard the state, prepare rho" maps every sigma to tr(sigma) rho (exact
+    # integers), so as a control operation it keeps traces and yields a physical state whenever rho is one ----------------------
+    for it in range(20 if thorough else 8):
+        d = rng.choice([1, 2, 3])
+        r_, s_ = gint(rng, (d, d), -2, 2), gint(rng, (d, d), -2, 2)
+        chk.search_cases += 1
+        chk.count("preparation")
+        try:
+            P = np.array(opr.preparation(r_ if it % 2 == 0 else np.asfortranarray(r_)))
+            out = (P @ s_.reshape(-1)).reshape(d, d)
+        except Exception as ex:
+            chk.fail("preparation", f"operators.preparation raises {ex!r}", {"d": d})
+            continue
+        if P.shape != (d * d, d * d) or not np.array_equal(out, np.trace(s_) * r_):
+            chk.fail("preparation", "operators.preparation(rho) applied to sigma is not tr(sigma) rho", {"d": d, "rho": r_.tolist(), "sigma": s_.tolist()})
     # ---- (b) Lindbladians: System.liouvillian() and TimeDependentSystem.liouvillian(t) ----------
     for it in range(100 if thorough else 40):
         d = rng.choice([1, 2, 2, 3])
